@@ -18,6 +18,7 @@ def run(prog, chk):
     chk.rule("C04.tables", "rule tables well formed", floor=5)
     chk.rule("C04.certificate", "every OK path of an anchored policy satisfies internal AND anchor certificate", floor=5)
     chk.rule("C04.verdicts", "verdict tables of the anchor rule functions", floor=30)
+    chk.rule("C04.guards", "guard tables of the anchor rules: which anchor value is compared with which value of the signature / extender reply", floor=30)
     PC.check_structure(prog, chk, "C04.tables", CERT.ANCHORED)
     T = PC.tables(prog)
     internal = set(T.basic_rules(T.policy("KSI_VERIFICATION_POLICY_INTERNAL")[0]))
@@ -28,3 +29,4 @@ def run(prog, chk):
             if r not in internal and r not in rules:
                 rules.append(r)
     PC.check_verdicts(prog, chk, "C04.verdicts", rules)
+    PC.check_guards(prog, chk, "C04.guards", rules)
